@@ -445,4 +445,23 @@ def rule_initial_index(ctx, prog, root, name, rule="R7"):
                     detail = "initial index = D::zeros(self.ndim()).into_pattern()" if ok else "initial index is zeros(%s)" % fmt(n)
                 else:
                     detail = "initial index is `%s`: not the all-zero index of the array's own dimensionality (wrong for IxDyn)" % fmt(a)[:80]
+    if not ok and detail == "no initial index found" and name.endswith("skipnan"):
+        # no placeholder index at all: the returned index is the one stored with the running extremum inside the fold's
+        # accumulator, i.e. every returned index was produced by the traversal itself
+        vals = []
+        ex = root.exits()
+        for d in (root.reaching_defs(0, ex[0], "term") if ex else []):
+            e = strip(root.def_expr(0, d))
+            if isinstance(e, tuple) and e[0] == "agg" and e[2] == "Ok":
+                vals.append(strip(e[3][0]))
+        from_fold = bool(vals)
+        for v in vals:
+            x = v
+            while isinstance(x, tuple) and x[0] in ("field", "downcast"):
+                x = strip(x[1])
+            from_fold = from_fold and isinstance(x, tuple) and x[0] == "call" and x[1] in ("indexed_fold_skipnan", "fold")
+        no_seed = not any(callee_name(t) in ("default", "zeros", "into_pattern", "from_elem") for b in [root] + prog.closures_of(root) for _, t in b.calls())
+        if from_fold and no_seed:
+            ok = True
+            detail = "no placeholder index: the returned index is taken from the accumulator of the indexed fold (only visited indexes can be returned)"
     ctx.ob(rule, "%s/initial-index" % name, ok, root.where(), detail, what="initial index not the logical first index for every dimensionality")
